@@ -636,3 +636,253 @@ Proof.
   pose proof (parse_conf_safe files file conf Hv) as H.
   destruct (parse_conf files file conf) as [t|e|w]; cbn [rbind]; [apply from_tree_ok|exact H|exact H].
 Qed.
+
+(* ================================================================================================
+   4. Value typing: integers, booleans, sizes
+   ================================================================================================ *)
+
+Definition all_digits (l : bytes) : Prop := Forall (fun b => is_digit b = true) l.
+
+Lemma dec_digits_app : forall k a l, all_digits k ->
+  dec_digits a (k ++ l) = match dec_digits a k with Some a' => dec_digits a' l | None => None end.
+Proof.
+  induction k as [|b k IH]; intros a l Hk; [reflexivity|].
+  inversion Hk as [|? ? Hb Hk']; subst. cbn [app dec_digits]. rewrite Hb. apply IH. exact Hk'.
+Qed.
+
+Lemma is_digit_range : forall b, is_digit b = true <-> 48 <= b <= 57.
+Proof.
+  intros b. unfold is_digit. rewrite andb_true_iff, !N.leb_le. reflexivity.
+Qed.
+
+(* dec_render_fuel with enough fuel prepends the decimal digits of n: described by what dec_digits reads back *)
+Lemma dec_render_fuel_spec : forall f n acc, n < 2 ^ N.of_nat f -> (0 < f)%nat ->
+  exists k, dec_render_fuel f n acc = k ++ acc /\ k <> [] /\ all_digits k /\
+            (forall a, dec_digits a k = Some (a * 10 ^ N.of_nat (length k) + n)) /\ n < 10 ^ N.of_nat (length k).
+Proof.
+  induction f as [|f IH]; intros n acc Hn Hf.
+  - lia.
+  - cbn [dec_render_fuel].
+    pose proof (N.mod_lt n 10 ltac:(discriminate)) as Hmod.
+    pose proof (N.div_mod n 10 ltac:(discriminate)) as Hdm.
+    set (q := n / 10) in *. set (m := n mod 10) in *. clearbody q m.
+    assert (Hd : is_digit (48 + m) = true) by (apply is_digit_range; lia).
+    destruct (q =? 0) eqn:E.
+    + apply N.eqb_eq in E. exists [48 + m].
+      assert (Hnm : n = m) by lia.
+      split; [reflexivity|]. split; [discriminate|]. split; [constructor; [exact Hd|constructor]|].
+      cbn [length]. change (N.of_nat 1) with 1. rewrite N.pow_1_r.
+      split.
+      * intros a. cbn [dec_digits]. rewrite Hd. f_equal. lia.
+      * lia.
+    + apply N.eqb_neq in E.
+      assert (Hn' : q < 2 ^ N.of_nat f).
+      { rewrite Nat2N.inj_succ, N.pow_succ_r' in Hn. lia. }
+      assert (Hf' : (0 < f)%nat).
+      { destruct f as [|f']; [|lia]. exfalso. cbn in Hn'. lia. }
+      destruct (IH q ((48 + m) :: acc) Hn' Hf') as [k [Hk [Hne [Hall [Hdd Hlt]]]]].
+      exists (k ++ [48 + m]).
+      split; [rewrite Hk, <- app_assoc; reflexivity|].
+      split; [destruct k; discriminate|].
+      split; [apply Forall_app; split; [exact Hall|constructor; [exact Hd|constructor]]|].
+      assert (Hlen : N.of_nat (length (k ++ [48 + m])) = N.succ (N.of_nat (length k))).
+      { rewrite app_length. cbn [length]. rewrite Nat.add_1_r, Nat2N.inj_succ. reflexivity. }
+      rewrite Hlen, N.pow_succ_r'.
+      set (P := 10 ^ N.of_nat (length k)) in *. clearbody P.
+      split.
+      * intros a. rewrite dec_digits_app by exact Hall. rewrite Hdd. cbn [dec_digits]. rewrite Hd. f_equal. lia.
+      * lia.
+Qed.
+
+Lemma dec_render_spec : forall n,
+  dec_render n <> [] /\ all_digits (dec_render n) /\ (forall a, dec_digits a (dec_render n) = Some (a * 10 ^ N.of_nat (length (dec_render n)) + n)).
+Proof.
+  intros n. unfold dec_render.
+  assert (Hn : n < 2 ^ N.of_nat (S (N.to_nat (N.log2 n)))).
+  { rewrite Nat2N.inj_succ, N2Nat.id. destruct n as [|p]; [reflexivity|]. apply N.log2_spec. reflexivity. }
+  destruct (dec_render_fuel_spec _ n [] Hn (Nat.lt_0_succ _)) as [k [Hk [Hne [Hall [Hdd _]]]]].
+  rewrite Hk, app_nil_r. auto.
+Qed.
+
+Lemma dec_digits_render : forall n, dec_digits 0 (dec_render n) = Some n.
+Proof. intros n. destruct (dec_render_spec n) as [_ [_ H]]. rewrite H. reflexivity. Qed.
+
+Lemma dec_render_head_digit : forall n, exists d r, dec_render n = d :: r /\ is_digit d = true.
+Proof.
+  intros n. destruct (dec_render_spec n) as [Hne [Hall _]]. destruct (dec_render n) as [|d r]; [congruence|].
+  inversion Hall; subst. eauto.
+Qed.
+
+Lemma parse_unsigned_render : forall max n, n <= max -> parse_unsigned max (dec_render n) = Some n.
+Proof.
+  intros max n Hn. unfold parse_unsigned. destruct (dec_render_head_digit n) as [d [r [E Hd]]].
+  pose proof (dec_digits_render n) as Hr. rewrite E in *.
+  apply is_digit_range in Hd. apply N.leb_le in Hn.
+  destruct d as [|p]; [lia|].
+  do 6 (destruct p as [p|p|]; try lia);
+    try (cbv iota beta; rewrite Hr, Hn; reflexivity).
+Qed.
+
+Lemma parse_i64_render : forall n, (Z.of_N n <= i64_max)%Z -> parse_i64 (dec_render n) = Some (Z.of_N n).
+Proof.
+  intros n Hn. unfold parse_i64. destruct (dec_render_head_digit n) as [d [r [E Hd]]].
+  pose proof (dec_digits_render n) as Hr. rewrite E in *.
+  apply is_digit_range in Hd.
+  destruct d as [|p]; [lia|].
+  do 6 (destruct p as [p|p|]; try lia);
+    try (rewrite Hr; apply Z.leb_le in Hn; rewrite Hn; reflexivity).
+Qed.
+
+Lemma is_quoted_digit_head : forall d r, is_digit d = true -> is_quoted (d :: r) = false.
+Proof.
+  intros d r Hd. apply is_digit_range in Hd. unfold is_quoted.
+  destruct d as [|p]; [reflexivity|]. do 6 (destruct p as [p|p|]; try reflexivity). lia.
+Qed.
+
+Lemma beq_refl : forall l, beq l l = true.
+Proof. induction l as [|a l IH]; [reflexivity|]. cbn [beq]. rewrite N.eqb_refl. exact IH. Qed.
+
+Lemma beq_eq : forall a b, beq a b = true <-> a = b.
+Proof.
+  induction a as [|x a IH]; intros [|y b]; cbn [beq]; split; intros H; try discriminate; try reflexivity.
+  - apply andb_true_iff in H. destruct H as [H1 H2]. apply N.eqb_eq in H1. apply IH in H2. subst. reflexivity.
+  - injection H as -> ->. rewrite N.eqb_refl. apply beq_refl.
+Qed.
+
+Lemma parse_bool_digit_head : forall d r, is_digit d = true -> parse_bool (d :: r) = None.
+Proof.
+  intros d r Hd. apply is_digit_range in Hd. unfold parse_bool, kw_true, kw_false. cbn [beq].
+  replace (d =? 116) with false by (symmetry; apply N.eqb_neq; lia).
+  replace (d =? 102) with false by (symmetry; apply N.eqb_neq; lia). reflexivity.
+Qed.
+
+(* an integer literal is stored as written *)
+Lemma type_value_int : forall key n, (Z.of_N n <= i64_max)%Z ->
+  type_value key (dec_render n) = Ok (NNum key (dec_render n)).
+Proof.
+  intros key n Hn. unfold type_value. destruct (dec_render_head_digit n) as [d [r [E Hd]]].
+  rewrite E at 1. rewrite (is_quoted_digit_head d r Hd). rewrite (parse_i64_render n Hn). reflexivity.
+Qed.
+
+(* the unit letters: K M G in either case *)
+Definition unit_mult (u : N) : option Z := assoc_n (upper_byte u) size_units.
+
+Lemma dec_digits_nondigit_end : forall k a u, is_digit u = false -> dec_digits a (k ++ [u]) = None.
+Proof.
+  induction k as [|b k IH]; intros a u Hu; cbn [app dec_digits].
+  - rewrite Hu. reflexivity.
+  - destruct (is_digit b); [apply IH; exact Hu|reflexivity].
+Qed.
+
+Lemma split_last_char_ascii : forall k u, u < 128 -> split_last_char (k ++ [u]) = Some (k, [u]).
+Proof.
+  intros k u Hu. unfold split_last_char. destruct (k ++ [u]) eqn:E; [destruct k; discriminate|]. rewrite <- E.
+  rewrite rev_app_distr. cbn [rev app take_cont].
+  replace (cont u) with false.
+  - rewrite rev_involutive. reflexivity.
+  - symmetry. unfold cont. apply andb_false_iff. left. apply N.leb_gt. exact Hu.
+Qed.
+
+(* parse_size on <digits><unit>: the product if it fits an i64, an error otherwise *)
+Lemma parse_size_unit : forall n u m, (Z.of_N n <= i64_max)%Z -> unit_mult u = Some m -> u < 128 -> is_digit (upper_byte u) = false ->
+  parse_size (dec_render n ++ [u]) =
+  if (Z.of_N n * m <=? i64_max)%Z && (i64_min <=? Z.of_N n * m)%Z then Ok (Z.of_N n * m)%Z else Err 0.
+Proof.
+  intros n u m Hn Hm Hu Hnd. unfold parse_size.
+  destruct (dec_render_head_digit n) as [d [r [E Hd]]].
+  destruct (dec_render n ++ [u]) as [|x [|y t]] eqn:El.
+  - rewrite E in El. discriminate.
+  - rewrite E in El. destruct r; discriminate.
+  - rewrite <- El. rewrite (split_last_char_ascii _ u Hu). rewrite (parse_i64_render n Hn).
+    unfold unit_mult in Hm. rewrite Hm. unfold checked_mul.
+    rewrite andb_comm. destruct ((Z.of_N n * m <=? i64_max)%Z && (i64_min <=? Z.of_N n * m)%Z); reflexivity.
+Qed.
+
+Lemma type_value_size : forall key n u m, (Z.of_N n <= i64_max)%Z -> unit_mult u = Some m -> u < 128 ->
+  is_digit u = false -> is_digit (upper_byte u) = false -> u <> 34 ->
+  type_value key (dec_render n ++ [u]) =
+  if (Z.of_N n * m <=? i64_max)%Z && (i64_min <=? Z.of_N n * m)%Z then Ok (NNum key (z_render (Z.of_N n * m))) else Err E_Value.
+Proof.
+  intros key n u m Hn Hm Hu Hnd Hnd' Hq. unfold type_value.
+  destruct (dec_render_head_digit n) as [d [r [E Hd]]].
+  assert (Hnq : is_quoted (dec_render n ++ [u]) = false) by (rewrite E; apply is_quoted_digit_head; exact Hd).
+  rewrite Hnq.
+  assert (Hni : parse_i64 (dec_render n ++ [u]) = None).
+  { unfold parse_i64. rewrite E. cbn [app]. pose proof Hd as Hd'. apply is_digit_range in Hd'.
+    destruct d as [|p]; [lia|].
+    do 6 (destruct p as [p|p|]; try lia);
+      try (change (?a :: r ++ [u]) with ((a :: r) ++ [u]); rewrite dec_digits_nondigit_end by exact Hnd; reflexivity). }
+  rewrite Hni.
+  assert (Hnb : parse_bool (dec_render n ++ [u]) = None) by (rewrite E; apply parse_bool_digit_head; exact Hd).
+  rewrite Hnb. rewrite (parse_size_unit n u m Hn Hm Hu Hnd').
+  destruct ((Z.of_N n * m <=? i64_max)%Z && (i64_min <=? Z.of_N n * m)%Z); reflexivity.
+Qed.
+
+(* the six unit letters and nothing else *)
+Lemma unit_mult_cases : forall u m, unit_mult u = Some m ->
+  (u = 75 \/ u = 107) /\ m = 1024%Z \/ (u = 77 \/ u = 109) /\ m = 1048576%Z \/ (u = 71 \/ u = 103) /\ m = 1073741824%Z.
+Proof.
+  intros u m H. unfold unit_mult, size_units in H. cbn [assoc_n] in H.
+  unfold upper_byte in H.
+  destruct ((97 <=? u) && (u <=? 122)) eqn:E.
+  - apply andb_true_iff in E. destruct E as [E1 E2]. apply N.leb_le in E1, E2.
+    destruct (u - 32 =? 75) eqn:A; [apply N.eqb_eq in A; injection H as <-; left; split; [right; lia|reflexivity]|].
+    destruct (u - 32 =? 77) eqn:B; [apply N.eqb_eq in B; injection H as <-; right; left; split; [right; lia|reflexivity]|].
+    destruct (u - 32 =? 71) eqn:C; [apply N.eqb_eq in C; injection H as <-; right; right; split; [right; lia|reflexivity]|].
+    discriminate.
+  - destruct (u =? 75) eqn:A; [apply N.eqb_eq in A; injection H as <-; left; split; [left; exact A|reflexivity]|].
+    destruct (u =? 77) eqn:B; [apply N.eqb_eq in B; injection H as <-; right; left; split; [left; exact B|reflexivity]|].
+    destruct (u =? 71) eqn:C; [apply N.eqb_eq in C; injection H as <-; right; right; split; [left; exact C|reflexivity]|].
+    discriminate.
+Qed.
+
+(* a size literal <n><unit> in range denotes n * multiplier, rendered in decimal; out of range it is a value error *)
+Theorem parse_size_correct : forall key n u m, (Z.of_N n <= i64_max)%Z -> unit_mult u = Some m ->
+  type_value key (dec_render n ++ [u]) =
+  if (Z.of_N n * m <=? i64_max)%Z then Ok (NNum key (dec_render (n * Z.to_N m))) else Err E_Value.
+Proof.
+  intros key n u m Hn Hm.
+  assert (Hu : u < 128 /\ is_digit u = false /\ is_digit (upper_byte u) = false /\ u <> 34 /\ (0 < m)%Z).
+  { destruct (unit_mult_cases u m Hm) as [[[->| ->] ->]|[[[->| ->] ->]|[[->| ->] ->]]]; repeat split; try reflexivity; try lia; discriminate. }
+  destruct Hu as [Hu [Hd [Hd' [Hq Hpos]]]].
+  rewrite (type_value_size key n u m Hn Hm Hu Hd Hd' Hq).
+  assert (Hlow : (i64_min <=? Z.of_N n * m)%Z = true) by (apply Z.leb_le; unfold i64_min; nia).
+  rewrite Hlow, andb_true_r.
+  destruct (Z.of_N n * m <=? i64_max)%Z; [|reflexivity].
+  unfold z_render. replace (Z.of_N n * m <? 0)%Z with false by (symmetry; apply Z.ltb_ge; nia).
+  do 3 f_equal. rewrite Z2N.inj_mul by lia. rewrite N2Z.id. reflexivity.
+Qed.
+
+(* anything after the digits that is not a unit letter (and not a digit) is rejected: "unknown unit" *)
+Lemma take_cont_app : forall rl acc r c, take_cont rl acc = (r, c) -> exists c0, c = c0 ++ acc /\ rl = rev c0 ++ r.
+Proof.
+  induction rl as [|b rl IH]; intros acc r c H; cbn [take_cont] in H.
+  - injection H as <- <-. exists []. split; reflexivity.
+  - destruct (cont b).
+    + destruct (IH _ _ _ H) as [c0 [-> ->]]. exists (c0 ++ [b]). rewrite <- app_assoc. split; [reflexivity|].
+      rewrite rev_app_distr. reflexivity.
+    + injection H as <- <-. exists [b]. split; reflexivity.
+Qed.
+
+Theorem unknown_unit_rejected : forall key n u, (Z.of_N n <= i64_max)%Z -> u < 128 -> unit_mult u = None ->
+  is_digit u = false -> is_digit (upper_byte u) = false -> u <> 34 ->
+  type_value key (dec_render n ++ [u]) = Err E_Value.
+Proof.
+  intros key n u Hn Hu Hm Hnd Hnd' Hq. unfold type_value.
+  destruct (dec_render_head_digit n) as [d [r [E Hd]]].
+  assert (Hnq : is_quoted (dec_render n ++ [u]) = false) by (rewrite E; apply is_quoted_digit_head; exact Hd).
+  rewrite Hnq.
+  assert (Hni : parse_i64 (dec_render n ++ [u]) = None).
+  { unfold parse_i64. rewrite E. cbn [app]. pose proof Hd as Hd'. apply is_digit_range in Hd'.
+    destruct d as [|p]; [lia|].
+    do 6 (destruct p as [p|p|]; try lia);
+      try (change (?a :: r ++ [u]) with ((a :: r) ++ [u]); rewrite dec_digits_nondigit_end by exact Hnd; reflexivity). }
+  rewrite Hni.
+  assert (Hnb : parse_bool (dec_render n ++ [u]) = None) by (rewrite E; apply parse_bool_digit_head; exact Hd).
+  rewrite Hnb. unfold parse_size.
+  destruct (dec_render n ++ [u]) as [|x [|y t]] eqn:El.
+  - rewrite E in El. discriminate.
+  - rewrite E in El. destruct r; discriminate.
+  - rewrite <- El. rewrite (split_last_char_ascii _ u Hu). rewrite (parse_i64_render n Hn).
+    unfold unit_mult in Hm. rewrite Hm, Hnd'. reflexivity.
+Qed.
